@@ -408,7 +408,7 @@ def run(ctx):
     header = ("From Coq Require Import List NArith Bool.\nImport ListNotations.\n"
               "From PV Require Import Common.Corr Model.Utf8 Model.Lines Model.FileInfo.\nOpen Scope N_scope.\n")
     t_coq = time.time()
-    mism, err = coq_eval_mismatches("cases_C13", header, terms, "fi_chk", shard_size=max(200, len(terms) // NCPU + 1))
+    mism, err = coq_eval_mismatches("cases_C13", header, terms, "fi_chk", shard_size=min(800, max(200, len(terms) // NCPU + 1)))
     if err:
         raise RuntimeError(err)
     variant = "as-is (newlines inside string literals are not recorded)"
